@@ -83,6 +83,19 @@ CLAIMED["C11"] = dict(
     design="6/C11",
 )
 
+CLAIMED["C12"] = dict(
+    text="Lean theorems (Props/C12.lean): for every non-empty list of csvpaths none of which is blank or contains the marker, reading "
+         "the group file back returns the same csvpaths in the same order, each with only blank lines around it (leftmost split "
+         "proved against the self-overlapping marker); selection by identity returns the member, :to the prefix through it and "
+         ":from the suffix from it; the manifest is the history of group-file fingerprints with adjacent repeats collapsed; identity "
+         "precedence. Tie: suite `paths` runs histories of add / identical re-add / replace / remove / new instance on two groups "
+         "against the real PathsManager, comparing get_named_paths, six selection forms per member, manifest vs SHA-256 of the "
+         "group file, and the model's group text, read-back, identities and selections.",
+    note="Identities come from the metadata model (C15) with Python's character classes supplied per character; SHA-256 is outside the model.",
+    technique="Lean 4 proof (string split/join round trip, list lemmas) + correspondence over operation histories",
+    design="6/C12",
+)
+
 NOT_YET = "check not built yet in this revision (planned: see DESIGN.md section 6); not claimed until its theorem and correspondence suite exist"
 
 
